@@ -97,6 +97,17 @@ def enumerate_cases(tier):
     return out
 
 
+def _mixed_terms(c, terms):
+    """prefixes of more than one base occur anywhere in the expression (they may cancel in the
+    model's normal form while the library is left with a base-changed float exponent)"""
+    bases = set()
+    for p, u, e in terms:
+        if p and c.snap.prefixes[p].base:
+            bases.add(c.snap.prefixes[p].base)
+        bases.update(c.snap.structure[u][1].keys())
+    return len(bases) > 1
+
+
 def _dim(c, terms):
     return c.snap.model_dim(c.snap.model_terms(terms))
 
@@ -166,7 +177,7 @@ def run_case(case) -> core.Outcome:
                 q = m.Quantity(ma, powered)
                 r = q.root(n)
                 check_result(r, da, "root", dec)
-                if isinstance(r, m.Quantity) and r.unit is not A and not model.m_mixed(c.snap.model_terms(ta)[1]):
+                if isinstance(r, m.Quantity) and r.unit is not A and not _mixed_terms(c, ta):
                     out.fail("C03:root:unit", f"(x**{n}).root({n}) of {A} gives unit {r.unit}")
             elif op == "neg":
                 check_result(-a, da, "neg", dec)
@@ -178,7 +189,7 @@ def run_case(case) -> core.Outcome:
                 if isinstance(r, m.Quantity) and r.magnitude < 0:
                     out.fail("C03:abs:negative", f"abs({a!r}) = {r!r}")
         except Exception as e:  # noqa
-            mixed = model.m_mixed(c.snap.model_terms(ta)[1])
+            mixed = _mixed_terms(c, ta)
             out.fail(f"C03:{op}:raises:{type(e).__name__}@{core.innermost_frame(e)}" + (":mixed-base" if mixed else ""), f"{op} on {a!r} (n={case.get('n')}) raised {type(e).__name__}: {e}")
         if len(ta) > 1 or dec:
             out.nontrivial = f"{op}|{mtypes}|{da}|{case.get('n')}"
